@@ -11,7 +11,7 @@ import math
 from fractions import Fraction as F
 
 BOX = 1000
-MAXDEN = 10000
+MAXDEN = 10**6          # rows whose integer image then exceeds 2*10^6 are unjudged anyway
 INT_MAX = 2**31 - 1
 
 
